@@ -1,8 +1,10 @@
 //! uec-harness: correspondence harness between /repo's crates and the Lean models.
 mod driver;
+mod fam_ops;
 mod fam_sel;
 mod fam_stack;
 mod prims;
+mod probe;
 mod report;
 mod rng;
 mod shard;
@@ -40,6 +42,7 @@ fn main() {
     let rep = match fam.as_str() {
         "stack" => fam_stack::run(&cfg),
         "sel" => fam_sel::run(&cfg),
+        "ops" => fam_ops::run(&cfg),
         f => { eprintln!("unknown family {f}"); std::process::exit(2) }
     };
     let js = serde_json::to_string_pretty(&rep.to_json()).unwrap();
